@@ -61,7 +61,8 @@ func itStatus(it *types.Interruption) string {
 }
 
 // body <req|resp> <limit> <memlimit> <R|P> <op,op,…>   op = s:<hex> | k:<hex> | u:<hex>
-//   => <intr>/<n>/<err>,… ; runs=<k> var=<field> reader=<field> dataerr=<0|1> intr=<status|->
+//
+//	=> <intr>/<n>/<err>,… ; runs=<k> var=<field> reader=<field> dataerr=<0|1> intr=<status|->
 func execBody(a []string) string {
 	side := a[0]
 	limit, _ := strconv.Atoi(a[1])
